@@ -844,6 +844,15 @@ pub fn deep_nest(tag: &str, n: usize) -> Vec<u8> {
                 s.push_str("<dl><dd>");
             }
         }
+        t if t.starts_with("alt:") => {
+            // two tags alternating, n levels in total
+            let parts: Vec<&str> = t.split(':').collect();
+            for i in 0..n {
+                s.push('<');
+                s.push_str(parts[1 + i % 2]);
+                s.push('>');
+            }
+        }
         _ => {
             for _ in 0..n {
                 s.push('<');
